@@ -67,7 +67,7 @@ def gen_cases(tier, seed):
     if not V.os.path.exists(drv):
         drv = None
     depth = 5 if tier == "quick" else 7
-    cap = 40000 if tier == "quick" else 400000
+    cap = 40000 if tier == "quick" else 60000
     cases = []
     states = 0
     for kind in (0, 1, 2, 3):
@@ -98,6 +98,11 @@ def gen_cases(tier, seed):
             else:
                 ops.append("C:%d" % rng.randrange(256))
         cases.append("tagops %d %s" % (kind, " ".join(ops)))
+    # a history that carries the list across 65535 / 65536 / 65537 bytes (a recorded length that is narrower than size_t wraps
+    # there): 256 elements of 254 body bytes are exactly 65536 bytes, then further adds, counts, a set and removals
+    big = ["A:221:%s" % hx([rng.randrange(256) for _ in range(254)]) for _ in range(255)]
+    cases.append("tagops 0 %s A:7:%s A:9:0102 K:221 K:9 C:11 R:7 K:7 R:9" % (" ".join(big), hx([rng.randrange(256) for _ in range(254)])))
+    cases.append("tagops 3 %s A:7:%s A:9:01 R:221 K:221" % (" ".join(big), hx([rng.randrange(256) for _ in range(253)])))
     return cases, {"bfs_histories": n_bfs, "bfs_depth": depth, "distinct_model_states": states, "random_histories": nr,
                    "total": len(cases)}
 
